@@ -8,6 +8,7 @@ import time
 VERIF_PREFIXES = (
     'postcondition not satisfied',
     'precondition not satisfied',
+    'precondition not met',
     'invariant not satisfied',
     'loop invariant not satisfied',
     'decreases not satisfied',
@@ -86,6 +87,7 @@ def classify(diag, gen, unit):
     kind_short = {
         'postcondition not satisfied': 'post',
         'precondition not satisfied': 'pre',
+        'precondition not met': 'pre',
         'assertion failed': 'assert',
         'possible arithmetic underflow/overflow': 'arith-overflow',
         'possible division by zero': 'div-by-zero',
